@@ -9,6 +9,8 @@ import (
 // Outgoing connections (protocol.Dial): the harness registers, with vf.DialScript, the peers that answer the
 // successive connections the code under test opens; (*net.Dialer).DialContext hands them out in order and reports
 // "connection refused" once the script is exhausted. The address string is concrete.
+var syncPools = map[*any][]any{}
+
 const dialScriptAddr = "server.example:9202"
 
 func (e *Engine) stubDial(fn *ssa.Function, args []any) (any, bool) {
@@ -26,6 +28,29 @@ func (e *Engine) stubDial(fn *ssa.Function, args []any) (any, bool) {
 		c := e.dialScript[e.dialNext]
 		e.dialNext++
 		return Tuple{c, IfaceV{}}, true
+	case "(*sync.Pool).Get":
+		// sequential model of sync.Pool: Get hands back the most recently Put value if there is one (the case that
+		// matters: whatever a previous user left in it is seen again), otherwise New()
+		e.models["sync.Pool: last-in first-out, never drops values"] = true
+		p := args[0].(Ptr)
+		key := &(*p.cells)[p.idx]
+		if st := syncPools[key]; len(st) > 0 {
+			v := st[len(st)-1]
+			syncPools[key] = st[:len(st)-1]
+			return v, true
+		}
+		pool := (*p.cells)[p.idx].(StructV)
+		for i := 0; i < len(pool); i++ {
+			if cl, ok := pool[i].(Closure); ok && cl.fn != nil {
+				return e.call(cl.fn, nil, cl.bind), true
+			}
+		}
+		return IfaceV{}, true
+	case "(*sync.Pool).Put":
+		p := args[0].(Ptr)
+		key := &(*p.cells)[p.idx]
+		syncPools[key] = append(syncPools[key], args[1])
+		return nil, true
 	case "net.SplitHostPort":
 		s, ok := args[0].(string)
 		if !ok {
